@@ -156,7 +156,9 @@ func remaining(c *Ctx, p *prop) string {
 func (g *Governance) newBatch(c *Ctx) []hist.TxSpec {
 	us := c.W.Users
 	var out []hist.TxSpec
-	plans := []string{"pass", "fail", "cancel", "miss", "expire", "config", "giveup1", "giveup2"}
+	// ("config0": a configuration change the option validation must refuse at creation — were it admitted, it
+	// would be funded, voted through and finalised like any other)
+	plans := []string{"pass", "fail", "cancel", "miss", "expire", "config", "giveup1", "giveup2", "config0"}
 	for i, pl := range plans {
 		p := &prop{id: PropID(fmt.Sprintf("%s/%s/%d/%d", g.Tag, pl, c.H, i)), plan: pl, proposer: us[3+i%2], created: c.H, fundDl: c.H + 5, typ: governance.ProposalTypeGeneral}
 		cfg := ""
@@ -169,6 +171,10 @@ func (g *Governance) newBatch(c *Ctx) []hist.TxSpec {
 				vals = []string{"propOptions.configUpdate.passPercentage:60", "propOptions.general.passPercentage:55", "propOptions.codeChange.passPercentage:52", "propOptions.configUpdate.votingDeadline:10001", "propOptions.codeChange.fundingDeadline:10002", "propOptions.general.votingDeadline:75001", "propOptions.configUpdate.passPercentage:51", "propOptions.general.fundingDeadline:75002", "propOptions.codeChange.votingDeadline:150001", "propOptions.configUpdate.fundingDeadline:10003"}
 			}
 			cfg = vals[(g.n/20+int(c.W.P.VotingDeadline))%len(vals)]
+		}
+		if pl == "config0" {
+			p.typ = governance.ProposalTypeConfigUpdate
+			cfg = "onsOptions.perBlockFees:0"
 		}
 		if pl == "pass" && c.R.Intn(2) == 0 {
 			p.typ = governance.ProposalTypeCodeChange
@@ -224,7 +230,7 @@ func (g *Governance) Plan(c *Ctx) []hist.TxSpec {
 			}
 		}
 		switch p.plan {
-		case "pass", "fail", "config", "expire", "giveup1", "giveup2":
+		case "pass", "fail", "config", "config0", "expire", "giveup1", "giveup2":
 			if store == "propActive" && rec.Status == int(governance.ProposalStatusFunding) {
 				switch age {
 				case 1:
